@@ -1,13 +1,487 @@
-// Package c01 is the harness for property C01 (runs the real kapacitor code, prints op lines).
+// Package c01 is the harness for property C01 (alert level / recovery state machine).
+//
+// It drives the REAL AlertNode of /repo through a real TaskMaster + alert service:
+//   - stream form:  stream|from().groupBy('host')|alert()...@sink()          fed through TaskMaster.WritePoints
+//   - batch form:   batch|query(..).groupBy('host')|alert()...@bsink()       fed through TaskMaster.BatchCollectors
+//     (the route a batch replay takes; no InfluxDB involved)
+//
+// The TICKscript is generated from the `cfg` line of a case. Level predicates are plain boolean fields
+// (`.warn(lambda: "w")`, `.warnReset(lambda: "rw")`), so a case line controls the outcome of every predicate of
+// every point directly: `1` true, `0` false, `m` field missing (evaluation error), `x` field of the wrong type
+// (evaluation error). Observed: the events a recording alert.Handler registered on the alert's topic receives
+// (ID, level, time, duration) and the data forwarded below the alert node (levelField, durationField, idField).
 package c01
 
 import (
 	"fmt"
 	"os"
+	"strconv"
+	"strings"
+	"time"
+
+	imodels "github.com/influxdata/influxdb/models"
+	"github.com/influxdata/kapacitor"
+	"github.com/influxdata/kapacitor/alert"
+	"github.com/influxdata/kapacitor/edge"
+	"github.com/influxdata/kapacitor/models"
+
+	"verifharness/kit"
 )
 
-// Run is replaced by the property's harness.
-func Run(args []string) int {
-	fmt.Fprintln(os.Stderr, "c01: harness not implemented yet")
-	return 3
+// ---- case configuration ------------------------------------------------------------------------
+
+type cfg struct {
+	form   string // "s" stream, "b" batch, "doc" the documented example (stream, thresholds on "value")
+	lv     string // 3 chars 0/1: info warn crit expression configured
+	rs     string // 3 chars 0/1: infoReset warnReset critReset configured
+	sco    bool
+	scoDur int64 // microseconds (0 = none)
+	noRec  bool
+	all    bool
+	flap   bool
+	lo, hi float64
+	hist   int64 // -1: property not set (pipeline default)
+	hasHis bool
 }
+
+func parseCfg(t []string) (cfg, error) {
+	c := cfg{form: "s", lv: "111", rs: "000", hist: -1}
+	for _, kv := range t[1:] {
+		i := strings.IndexByte(kv, '=')
+		if i < 0 {
+			return c, fmt.Errorf("bad cfg token %q", kv)
+		}
+		k, v := kv[:i], kv[i+1:]
+		switch k {
+		case "form":
+			c.form = v
+		case "lv":
+			c.lv = v
+		case "rs":
+			c.rs = v
+		case "sco":
+			c.sco = v == "1"
+		case "scodur":
+			c.scoDur, _ = strconv.ParseInt(v, 10, 64)
+		case "norec":
+			c.noRec = v == "1"
+		case "all":
+			c.all = v == "1"
+		case "flap":
+			c.flap = v == "1"
+		case "lo":
+			c.lo = bitsF(v)
+		case "hi":
+			c.hi = bitsF(v)
+		case "hist":
+			c.hist, _ = strconv.ParseInt(v, 10, 64)
+		default:
+			return c, fmt.Errorf("unknown cfg key %q", k)
+		}
+	}
+	if len(c.lv) != 3 || len(c.rs) != 3 {
+		return c, fmt.Errorf("lv/rs need 3 digits")
+	}
+	return c, nil
+}
+
+func bitsF(h string) float64 {
+	u, _ := strconv.ParseUint(h, 16, 64)
+	return mathFloat64frombits(u)
+}
+
+func fnum(f float64) string {
+	s := strconv.FormatFloat(f, 'f', -1, 64)
+	if !strings.Contains(s, ".") {
+		s += ".0"
+	}
+	return s
+}
+
+var lvNames = []string{"info", "warn", "crit"}
+var lvFields = []string{"i", "w", "c"}
+var rsFields = []string{"ri", "rw", "rc"}
+
+// alertProps renders the property chain of the alert node from the configuration.
+func (c cfg) alertProps(topic string) string {
+	var b strings.Builder
+	if c.form == "doc" {
+		// pipeline/alert.go:100-127, verbatim thresholds
+		b.WriteString(`.info(lambda: "value" > 60).infoReset(lambda: "value" < 50)`)
+		b.WriteString(`.warn(lambda: "value" > 70).warnReset(lambda: "value" < 60)`)
+		b.WriteString(`.crit(lambda: "value" > 80).critReset(lambda: "value" < 70)`)
+	} else {
+		for k := 0; k < 3; k++ {
+			if c.lv[k] == '1' {
+				fmt.Fprintf(&b, ".%s(lambda: \"%s\")", lvNames[k], lvFields[k])
+			}
+			if c.rs[k] == '1' {
+				fmt.Fprintf(&b, ".%sReset(lambda: \"%s\")", lvNames[k], rsFields[k])
+			}
+		}
+	}
+	fmt.Fprintf(&b, ".topic('%s').levelField('lvl').durationField('dur').idField('aid')", topic)
+	if c.sco {
+		if c.scoDur != 0 {
+			fmt.Fprintf(&b, ".stateChangesOnly(%du)", c.scoDur)
+		} else {
+			b.WriteString(".stateChangesOnly()")
+		}
+	}
+	if c.noRec {
+		b.WriteString(".noRecoveries()")
+	}
+	if c.all {
+		b.WriteString(".all()")
+	}
+	if c.flap {
+		fmt.Fprintf(&b, ".flapping(%s, %s)", fnum(c.lo), fnum(c.hi))
+	}
+	if c.hist >= 0 {
+		fmt.Fprintf(&b, ".history(%d)", c.hist)
+	}
+	return b.String()
+}
+
+func (c cfg) script(topic string) (string, kapacitor.TaskType) {
+	if c.form == "b" {
+		return "batch|query('SELECT * FROM \"db\".\"rp\".\"m\"').period(1s).every(1s).groupBy('host')|alert()" + c.alertProps(topic) + "@bsink()", kapacitor.BatchTask
+	}
+	return "stream|from().measurement('m').groupBy('host')|alert()" + c.alertProps(topic) + "@sink()", kapacitor.StreamTask
+}
+
+// ---- executing one case on the real code ---------------------------------------------------------
+
+var dbrps = []kapacitor.DBRP{{Database: "db", RetentionPolicy: "rp"}}
+
+type runner struct {
+	tm     *kit.TM
+	used   int
+	caseNo int
+}
+
+func (r *runner) get() (*kit.TM, error) {
+	if r.tm != nil && r.used >= 40 {
+		r.tm.Close()
+		r.tm = nil
+	}
+	if r.tm == nil {
+		tm, err := kit.NewTM(kit.TMOpts{})
+		if err != nil {
+			return nil, err
+		}
+		r.tm, r.used = tm, 0
+	}
+	r.used++
+	return r.tm, nil
+}
+
+func (r *runner) close() {
+	if r.tm != nil {
+		r.tm.Close()
+		r.tm = nil
+	}
+}
+
+func fieldsOf(vec string) (models.Fields, error) {
+	if len(vec) != 6 {
+		return nil, fmt.Errorf("condition vector needs 6 symbols: %q", vec)
+	}
+	f := models.Fields{"keep": int64(1)}
+	names := append(append([]string{}, lvFields...), rsFields...)
+	for k, n := range names {
+		switch vec[k] {
+		case '1':
+			f[n] = true
+		case '0':
+			f[n] = false
+		case 'm': // missing
+		case 'x':
+			f[n] = "notabool"
+		default:
+			return nil, fmt.Errorf("bad symbol in %q", vec)
+		}
+	}
+	return f, nil
+}
+
+func lvlNum(s string) string {
+	switch s {
+	case "OK":
+		return "0"
+	case "INFO":
+		return "1"
+	case "WARNING":
+		return "2"
+	case "CRITICAL":
+		return "3"
+	}
+	return "bad"
+}
+
+func fwdFields(id string, t int64, f models.Fields, extra string) string {
+	lv, _ := f["lvl"].(string)
+	aid, _ := f["aid"].(string)
+	d, ok := f["dur"].(int64)
+	ds := "bad"
+	if ok {
+		ds = strconv.FormatInt(d, 10)
+	}
+	if aid != id {
+		return kit.Esc(id) + ":badid"
+	}
+	return fmt.Sprintf("%s:%s:%d:%s%s", kit.Esc(id), lvlNum(lv), t, ds, extra)
+}
+
+func list(xs []string) string {
+	if len(xs) == 0 {
+		return "-"
+	}
+	return strings.Join(xs, ",")
+}
+
+func stripObs(l string) string {
+	if i := strings.Index(l, " => "); i >= 0 {
+		return l[:i]
+	}
+	return l
+}
+
+// execCase runs the op lines of one case and returns them followed by the observation lines.
+func (r *runner) execCase(ops []string) (out []string, err error) {
+	var c cfg
+	var body [][]string
+	for _, raw := range ops {
+		l := stripObs(raw)
+		t := strings.Fields(l)
+		if len(t) == 0 {
+			continue
+		}
+		switch t[0] {
+		case "cfg":
+			if c, err = parseCfg(t); err != nil {
+				return nil, err
+			}
+			out = append(out, l)
+		case "p", "b", "v", "restart":
+			body = append(body, t)
+			out = append(out, l)
+		case "events", "fwd":
+			// observation lines of a previous run: recomputed below
+		default:
+			return nil, fmt.Errorf("unknown op %q", l)
+		}
+	}
+	tm, err := r.get()
+	if err != nil {
+		return nil, err
+	}
+	r.caseNo++
+	topic := fmt.Sprintf("top%d", r.caseNo)
+	rec := &kit.EventRec{}
+	tm.Alert.RegisterAnonHandler(topic, rec)
+	script, tt := c.script(topic)
+
+	var sinkKeys []string
+	gen := 0
+	var et *kapacitor.ExecutingTask
+	var taskID string
+	start := func() error {
+		gen++
+		taskID = fmt.Sprintf("c%dg%d", r.caseNo, gen)
+		task, err := tm.TM.NewTask(taskID, script, tt, dbrps, 0, nil)
+		if err != nil {
+			return fmt.Errorf("NewTask: %v\n%s", err, script)
+		}
+		et, err = tm.TM.StartTask(task)
+		if err != nil {
+			return fmt.Errorf("StartTask: %v", err)
+		}
+		return nil
+	}
+	stop := func() error {
+		if tt == kapacitor.BatchTask {
+			for _, bc := range tm.TM.BatchCollectors(taskID) {
+				bc.Close()
+			}
+		} else {
+			// closes the task's fork edge after everything written so far has been routed
+			tm.TM.Drain()
+		}
+		werr := et.Wait()
+		tm.TM.DeleteTask(taskID)
+		for _, k := range tm.Rec.Keys() {
+			if strings.HasPrefix(k, taskID+"/") {
+				sinkKeys = append(sinkKeys, k)
+			}
+		}
+		return werr
+	}
+	if err := start(); err != nil {
+		return nil, err
+	}
+	for _, t := range body {
+		switch t[0] {
+		case "p", "v": // p <gid> <t> <vec>   |   v <gid> <t> <value>
+			if tt != kapacitor.StreamTask {
+				return nil, fmt.Errorf("point op in a batch case")
+			}
+			gid, _ := kit.Unesc(t[1])
+			ts, _ := strconv.ParseInt(t[2], 10, 64)
+			var f models.Fields
+			if t[0] == "v" {
+				v, _ := strconv.ParseInt(t[3], 10, 64)
+				f = models.Fields{"value": v}
+			} else if f, err = fieldsOf(t[3]); err != nil {
+				return nil, err
+			}
+			pt, err := imodels.NewPoint("m", imodels.NewTags(map[string]string{"host": gid}), imodels.Fields(f), time.Unix(0, ts).UTC())
+			if err != nil {
+				return nil, err
+			}
+			if err := tm.TM.WritePoints("db", "rp", imodels.ConsistencyLevelAll, []imodels.Point{pt}); err != nil {
+				return nil, err
+			}
+		case "b": // b <gid> <tmax> <t:vec,t:vec|->
+			if tt != kapacitor.BatchTask {
+				return nil, fmt.Errorf("batch op in a stream case")
+			}
+			gid, _ := kit.Unesc(t[1])
+			tmax, _ := strconv.ParseInt(t[2], 10, 64)
+			var pts []edge.BatchPointMessage
+			if t[3] != "-" {
+				for _, ps := range strings.Split(t[3], ",") {
+					i := strings.IndexByte(ps, ':')
+					if i < 0 {
+						return nil, fmt.Errorf("bad batch point %q", ps)
+					}
+					ts, _ := strconv.ParseInt(ps[:i], 10, 64)
+					f, err := fieldsOf(ps[i+1:])
+					if err != nil {
+						return nil, err
+					}
+					pts = append(pts, edge.NewBatchPointMessage(f, models.Tags{"host": gid}, time.Unix(0, ts).UTC()))
+				}
+			}
+			begin := edge.NewBeginBatchMessage("m", models.Tags{"host": gid}, false, time.Unix(0, tmax).UTC(), len(pts))
+			bb := edge.NewBufferedBatchMessage(begin, pts, edge.NewEndBatchMessage())
+			cs := tm.TM.BatchCollectors(taskID)
+			if len(cs) != 1 {
+				return nil, fmt.Errorf("expected one batch collector, got %d", len(cs))
+			}
+			if err := cs[0].CollectBatch(bb); err != nil {
+				return nil, err
+			}
+		case "restart":
+			// stop the task (all input processed) and start it again: per-ID state is restored from the topic
+			if err := stop(); err != nil {
+				return nil, fmt.Errorf("task failed: %v", err)
+			}
+			if err := start(); err != nil {
+				return nil, err
+			}
+		}
+	}
+	if err := stop(); err != nil {
+		return nil, fmt.Errorf("task failed: %v", err)
+	}
+	// Deregistering closes the handler's queue, which drains it: everything collected has been handed over.
+	tm.Alert.DeregisterAnonHandler(topic, rec)
+	tm.Alert.DeleteTopic(topic)
+
+	var evs []string
+	for _, e := range rec.Get() {
+		evs = append(evs, fmt.Sprintf("%s:%d:%d:%d", kit.Esc(e.State.ID), int(e.State.Level), e.State.Time.UnixNano(), int64(e.State.Duration)))
+	}
+	out = append(out, "events => "+list(evs))
+
+	var fw []string
+	for _, k := range sinkKeys {
+		for _, m := range tm.Rec.Get(k) {
+			switch x := m.(type) {
+			case edge.PointMessage:
+				id := "m:" + string(x.GroupID())
+				fw = append(fw, fwdFields(id, x.Time().UnixNano(), x.Fields(), ""))
+			case edge.BufferedBatchMessage:
+				id := "m:" + string(x.GroupID())
+				var first string
+				same := true
+				for i, bp := range x.Points() {
+					s := fwdFields(id, x.Time().UnixNano(), bp.Fields(), fmt.Sprintf(":%d", len(x.Points())))
+					if i == 0 {
+						first = s
+					} else if s != first {
+						same = false
+					}
+				}
+				if !same {
+					first = kit.Esc(id) + ":inconsistent"
+				}
+				fw = append(fw, first)
+			}
+		}
+	}
+	out = append(out, "fwd => "+list(fw))
+	return out, nil
+}
+
+// ---- plumbing ------------------------------------------------------------------------------------
+
+func emit(out *kit.Out, id string, lines []string) {
+	out.Line("case", id)
+	for _, l := range lines {
+		out.Line(l)
+	}
+	out.Line("end")
+	out.Flush()
+}
+
+// Run: `vh-c01 -seed S -n N [-tier thorough]` generates; `vh-c01 -ops file` re-executes the cases of a file.
+func Run(args []string) int {
+	f := kit.ParseFlags(args)
+	out := kit.NewOut()
+	defer out.Flush()
+	r := &runner{}
+	defer r.close()
+	run := func(id string, ops []string) bool {
+		lines, err := r.execCase(ops)
+		if err != nil {
+			fmt.Fprintf(os.Stderr, "case %s: %v\n", id, err)
+			return false
+		}
+		emit(out, id, lines)
+		return true
+	}
+	if f.Ops != "" {
+		lines, err := kit.ReadLines(f.Ops)
+		if err != nil {
+			fmt.Fprintln(os.Stderr, err)
+			return 2
+		}
+		var cur []string
+		id := ""
+		for _, l := range lines {
+			t := strings.Fields(l)
+			switch {
+			case len(t) == 2 && t[0] == "case":
+				id, cur = t[1], nil
+			case len(t) == 1 && t[0] == "end":
+				if !run(id, cur) {
+					return 2
+				}
+			default:
+				cur = append(cur, l)
+			}
+		}
+		return 0
+	}
+	rnd := kit.NewRand(f.Seed)
+	for i := 0; i < f.N; i++ {
+		if !run(fmt.Sprintf("g%d", i), genCase(rnd.Fork(), i)) {
+			return 2
+		}
+	}
+	return 0
+}
+
+var _ = alert.OK
